@@ -342,6 +342,62 @@ class C:
             return True
         return SymBool(z3.Not(self._cmpc(o, lambda a, b: a == b).t))
 
+    # ordering: numpy orders complex numbers lexicographically (real part first); python's complex raises TypeError, which the
+    # code under test can only reach with python scalars (then the replay on the real code does not reproduce)
+    @staticmethod
+    def _bt(v):
+        return z3.BoolVal(bool(v)) if not _builtin_isinstance(v, SymBool) else v.t
+
+    def _lex(self, o, strict_last, less):
+        if not C._ok(o):
+            return NotImplemented
+        o = C.lift(o)
+        a, b = (self, o) if less else (o, self)
+        first = a.re < b.re
+        same = a.re == b.re
+        last = (a.im < b.im) if strict_last else (a.im <= b.im)
+        return SymBool(z3.simplify(z3.Or(C._bt(first), z3.And(C._bt(same), C._bt(last)))))
+
+    def __lt__(self, o):
+        return self._lex(o, True, True)
+
+    def __le__(self, o):
+        return self._lex(o, False, True)
+
+    def __gt__(self, o):
+        return self._lex(o, True, False)
+
+    def __ge__(self, o):
+        return self._lex(o, False, False)
+
+    def sqrt(self):
+        """principal square root: p + iq with p^2 - q^2 = re, 2pq = im, p >= 0 (q >= 0 when p == 0)"""
+        from . import apoly
+        im0 = self.im == 0
+        if im0 is True or (_builtin_isinstance(im0, SymBool) and bool(im0)):
+            nonneg = self.re >= 0
+            if nonneg is True or (_builtin_isinstance(nonneg, SymBool) and bool(nonneg)):
+                return C(_real_sqrt(self.re), 0)
+            return C(0, _real_sqrt(-self.re))
+        usesP = any(_builtin_isinstance(v, apoly.P) for v in (self.re, self.im))
+        if usesP and all(not _builtin_isinstance(v, apoly.P) or v.is_const() for v in (self.re, self.im)):
+            import cmath
+            w = cmath.sqrt(complex(float(self.re), float(self.im)))
+            return C(apoly.P.const(Fraction(w.real).limit_denominator(10**15)), apoly.P.const(Fraction(w.imag).limit_denominator(10**15)))
+        if usesP:
+            pr, qi = apoly.new_real('csqrt.re'), apoly.new_real('csqrt.im')
+            for lhs, rhs in ((pr * pr - qi * qi, self.re), (2 * pr * qi, self.im)):
+                dd = lhs - rhs
+                dd = dd.cleared() if _builtin_isinstance(dd, apoly.P) else dd
+                if _builtin_isinstance(dd, apoly.P):
+                    apoly.register_side(dd.symbols())
+                    cur().pc.append(dd.to_z3() == 0)
+            cur().assume(pr >= 0)
+            return C(pr, qi)
+        pr, qi = real('csqrt.re'), real('csqrt.im')
+        cur().assume(SymBool(z3.And(pr.t * pr.t - qi.t * qi.t == Z.lift(self.re).t, 2 * pr.t * qi.t == Z.lift(self.im).t, pr.t >= 0)))
+        return C(pr, qi)
+
     __hash__ = None
 
     def __repr__(self):
@@ -362,6 +418,15 @@ def im_part(v):
     if _builtin_isinstance(v, complex):
         return v.imag
     return 0
+
+
+def _real_sqrt(v):
+    from . import apoly
+    if _builtin_isinstance(v, apoly.P):
+        return apoly.sqrt(v)
+    if _builtin_isinstance(v, Z):
+        return zsqrt(v)
+    return float(v) ** 0.5
 
 
 class SymInt:
